@@ -121,7 +121,7 @@ func execRace(c fw.Case) (string, *fw.OracleFailure) {
 				send(0x0002, nil)
 				steps := 2 + r.Intn(6)
 				for s := 0; s < steps; s++ {
-					switch r.Intn(9) {
+					switch r.Intn(10) {
 					case 0, 1: // burst of ordinary messages
 						for k := 0; k < 1+r.Intn(5); k++ {
 							switch r.Intn(4) {
@@ -147,6 +147,21 @@ func execRace(c fw.Case) (string, *fw.OracleFailure) {
 							}
 							serial++
 							_ = cl.Send(frames.Build(frames.H{ID: 0x0801, Phone: phone, Serial: serial, Frag: true, Sum: uint16(n), No: uint16(k)}, r.Bytes(40)))
+						}
+					case 9: // several complete sub-packaged uploads back to back: while the writer still answers one reassembled
+						// message (its reply is computed from the body), the reader is already assembling the next
+						for u := 0; u < 3+r.Intn(4); u++ {
+							n := 2 + r.Intn(3)
+							var all []byte
+							for k := 1; k <= n; k++ {
+								serial++
+								body := r.Bytes(20 + r.Intn(30))
+								if k == 1 {
+									body = append([]byte{0, 0, byte(w), byte(u)}, make([]byte, 32+r.Intn(8))...)
+								}
+								all = append(all, frames.Build(frames.H{ID: 0x0801, Phone: phone, Serial: serial, Frag: true, Sum: uint16(n), No: uint16(k)}, body)...)
+							}
+							_ = cl.Send(all)
 						}
 					case 3, 4: // platform commands, short or long time-out, from a caller goroutine
 						for k := 0; k < 1+r.Intn(3); k++ {
